@@ -22,6 +22,14 @@ let handle scn (inp : string list) (impl : string) : string * string =
     let m = hex_of_bytes (u16_to_bytes (endian_of e) (n_of_hex v)) in
     let s = hex_of_bytes (spec_bytes (nat_of_int 1) (endian_of e) HighFirst (n_of_hex v)) in
     (m, if s = impl then "1" else "0")
+  | "enc16s", [e; vs] ->
+    (* the list encoder: concatenation of the scalar layouts; the implementation's
+       output carries a "!..." marker when the caller's slice was modified or a
+       second call on the same slice gave other bytes, which P rejects *)
+    let l = list_of_csv n_of_hex vs in
+    let m = hex_of_bytes (u16s_to_bytes (endian_of e) l) in
+    let s = hex_of_bytes (List.concat_map (fun v -> spec_bytes (nat_of_int 1) (endian_of e) HighFirst v) l) in
+    (m, if s = impl then "1" else "0")
   | "enc32", [e; w; v] ->
     let m = hex_of_bytes (u32_to_bytes (endian_of e) (word_of w) (n_of_hex v)) in
     let s = hex_of_bytes (spec_bytes (nat_of_int 2) (endian_of e) (word_of w) (n_of_hex v)) in
